@@ -13,16 +13,26 @@ def R(v):
     return core.to_real(v)
 
 
+TOL = [None]      # set to a Fraction in concrete (replay) runs where sqrt & co. are floating approximations
+
+
+def set_mode(ex, tol=Fraction(1, 10 ** 7)):
+    TOL[0] = tol if ex.concrete is not None else None
+
+
 def req(a, b):
-    if isinstance(a, Fraction) and isinstance(b, Fraction):
+    if isinstance(a, (Fraction, int)) and isinstance(b, (Fraction, int)):
+        a, b = Fraction(a), Fraction(b)
+        if TOL[0] is not None:
+            return abs(a - b) <= TOL[0] * (1 + abs(a) + abs(b))
         return a == b
-    if isinstance(a, (int,)) and isinstance(b, Fraction) or isinstance(b, int) and isinstance(a, Fraction):
-        return Fraction(a) == Fraction(b)
     return R(a) == R(b)
 
 
 def rle(a, b):
     if isinstance(a, (Fraction, int)) and isinstance(b, (Fraction, int)):
+        if TOL[0] is not None:
+            return Fraction(a) <= Fraction(b) + TOL[0] * (1 + abs(Fraction(a)) + abs(Fraction(b)))
         return a <= b
     return R(a) <= R(b)
 
@@ -128,3 +138,42 @@ def ssum(xs):
     for x in xs:
         t = add(t, x)
     return t
+
+
+class Piece:
+    """The polynomial piece (degree <= 3 in x) that an evaluator returns for query times inside one segment.
+    Symbolic run: the returned term with x substituted.  Concrete (replay) run: the interpolating cubic
+    through four query times inside the segment (exact in rational arithmetic)."""
+
+    def __init__(self, ex, f, x, expr, lo, hi):
+        self.ex, self.x, self.expr = ex, x, expr
+        if ex.concrete is not None:
+            lo, hi, x = Fraction(lo), Fraction(hi), Fraction(x)
+            ts = [lo + (hi - lo) * Fraction(k, 5) for k in (1, 2, 3, 4)]
+            ys = [Fraction(f(t)) for t in ts]
+            self.ts, self.ys = ts, ys
+
+    def at(self, t):
+        if self.ex.concrete is None:
+            if isinstance(self.expr, (Fraction, int)):
+                return self.expr
+            return z3.substitute(self.expr, (self.x, R(t)))
+        t = Fraction(t)
+        tot = Fraction(0)
+        for i, (ti, yi) in enumerate(zip(self.ts, self.ys)):
+            w = yi
+            for j, tj in enumerate(self.ts):
+                if j != i:
+                    w *= (t - tj) / (ti - tj)
+            tot += w
+        return tot
+
+    def deriv_at_x(self):
+        """derivative at the query time x: exact five-point stencil for polynomials of degree <= 4"""
+        if self.ex.concrete is None:
+            if isinstance(self.expr, (Fraction, int)):
+                return Fraction(0)
+            f = lambda d: z3.substitute(self.expr, (self.x, self.x + d))
+            return (-f(2) + 8 * f(1) - 8 * f(-1) + f(-2)) / 12
+        x = Fraction(self.x)
+        return (-self.at(x + 2) + 8 * self.at(x + 1) - 8 * self.at(x - 1) + self.at(x - 2)) / 12
